@@ -22,14 +22,16 @@
           unflushed buffer have reached the file (a crash WITHIN a write / flush), and with POWER also Lose(i, c): an
           inode that was not fsynced keeps only a part of its data.  Every reachable crashed state is a possible outcome.
    Atomic  in every state, crashed or not, "path" holds the complete old or the complete new version. *)
-EXTENDS Naturals, Sequences, FiniteSets, TLC
+EXTENDS Naturals, Sequences, FiniteSets, TLC, TLCExt
 
 CONSTANTS PROTOS,    \* names of the protocols explored in exhaustive runs
-          POWER,     \* TRUE: a crash may be a power loss
+          POWERS,    \* subset of BOOLEAN; TRUE: a crash may be a power loss
           NAMES      \* file names
-VARIABLES prog, n, old,        \* the program, the size of New, whether "path" existed before ("old" | "absent"); fixed per behaviour
+VARIABLES proto, power,        \* which protocol / which kind of crash this behaviour is about; fixed per behaviour, like
+          prog, n, old,        \* the program, the size of New, whether "path" existed before ("old" | "absent")
           dir, ino, hnd, pc, crashed
-vars == <<prog, n, old, dir, ino, hnd, pc, crashed>>
+Fixed == <<proto, power, prog, n, old>>
+vars == <<proto, power, prog, n, old, dir, ino, hnd, pc, crashed>>
 
 Old == <<"old">>
 Junk == <<"junk">>
@@ -66,14 +68,14 @@ AddStale(fs, names) == IF names = <<>> THEN fs
                                       dir |-> [fs.dir EXCEPT ![Head(names)] = Len(fs.ino) + 1]], Tail(names))
 InitFS(o, stale) == AddStale(IF o = "old" THEN [ino |-> <<[vis |-> Old, dur |-> Old]>>, dir |-> [NoFile EXCEPT !["path"] = 1]]
                              ELSE [ino |-> <<>>, dir |-> NoFile], stale)
-Init == /\ \E p \in PROTOS, o \in {"old", "absent"} :
-             /\ prog = Proto(p) /\ n = 3 /\ old = o
+Init == /\ \E p \in PROTOS, o \in {"old", "absent"}, w \in POWERS :
+             /\ proto = p /\ power = w /\ prog = Proto(p) /\ n = 3 /\ old = o
              /\ LET fs == InitFS(o, IF p = "safe_stale" THEN <<"t1">> ELSE <<>>) IN ino = fs.ino /\ dir = fs.dir
         /\ hnd = <<>> /\ pc = 1 /\ crashed = FALSE
 
 \* ---------------------------------------------------------------------------------------------- the file system
 Cur(x) == ~crashed /\ pc <= Len(prog) /\ prog[pc].op = x
-Adv == pc' = pc + 1 /\ UNCHANGED <<prog, n, old, crashed>>
+Adv == pc' = pc + 1 /\ UNCHANGED <<Fixed, crashed>>
 Hs == DOMAIN hnd                                  \* handles are numbered 1.. in order of opening (closed ones stay, `open` FALSE)
 NoHandle == [ino |-> 0, pend |-> 0, pos |-> 0, app |-> FALSE, junk |-> FALSE, open |-> FALSE]
 Handle(h) == IF h \in Hs THEN hnd[h] ELSE NoHandle
@@ -120,19 +122,19 @@ RenameFails == Cur("renamefails") /\ Adv /\ UNCHANGED <<dir, ino, hnd>>
 Remove == /\ Cur("remove") /\ Adv /\ dir' = [dir EXCEPT ![prog[pc].f] = 0] /\ UNCHANGED <<ino, hnd>>
 
 \* the process dies before operation pc (or after the last one); nothing more is flushed by this step itself
-Crash == /\ ~crashed /\ crashed' = TRUE /\ UNCHANGED <<prog, n, old, dir, ino, hnd, pc>>
+Crash == /\ ~crashed /\ crashed' = TRUE /\ UNCHANGED <<Fixed, dir, ino, hnd, pc>>
 Parts(p) == {k \in {1, p \div 2, p - 1, p} : k >= 1 /\ k <= p}
 \* ... but any part of an unflushed buffer may already have reached the file (crash within the write / flush)
 Leak(h) == /\ crashed /\ h \in Hs /\ hnd[h].open /\ hnd[h].pend > 0 /\ hnd[h].ino # 0
            /\ \E k \in Parts(hnd[h].pend) : ino' = [ino EXCEPT ![hnd[h].ino].vis = Reach(@, hnd[h], k)]
            /\ hnd' = [hnd EXCEPT ![h].pend = 0]
-           /\ UNCHANGED <<prog, n, old, dir, pc, crashed>>
+           /\ UNCHANGED <<Fixed, dir, pc, crashed>>
 \* power loss: data that was never fsynced may be missing from an inode whose name is already in place
 Between(d, v) == IF IsNew(d) /\ IsNew(v) /\ d[2] < v[2] THEN {New(k) : k \in {d[2], (d[2] + v[2]) \div 2, v[2] - 1}} ELSE {d}
-Lose(i) == /\ crashed /\ POWER /\ i \in DOMAIN ino /\ ino[i].vis # ino[i].dur
+Lose(i) == /\ crashed /\ power /\ i \in DOMAIN ino /\ ino[i].vis # ino[i].dur
            /\ \A h \in Hs : ~(hnd[h].open /\ hnd[h].ino = i /\ hnd[h].pend > 0)       \* after the leaks of that inode
            /\ \E c \in Between(ino[i].dur, ino[i].vis) : ino' = [ino EXCEPT ![i] = [vis |-> c, dur |-> c]]
-           /\ UNCHANGED <<prog, n, old, dir, hnd, pc, crashed>>
+           /\ UNCHANGED <<Fixed, dir, hnd, pc, crashed>>
 
 Step == Open \/ Write \/ Seek \/ Flush \/ Fsync \/ Close \/ Exists \/ Stat \/ Chmod \/ Rename \/ RenameFails \/ Remove
 Leaks == \E h \in Hs : Leak(h)
@@ -143,10 +145,30 @@ Spec == Init /\ [][Next]_vars
 \* ---------------------------------------------------------------------------------------------- the property
 AtPath == IF dir["path"] = 0 THEN <<"absent">> ELSE ino[dir["path"]].vis
 Atomic == AtPath \in {<<old>>, New(n)}
+\* which protocols must be atomic: the temp-file protocols under both kinds of crash; without fsync only when the process
+\* dies; a recorded real save ("trace") always -- that is the property
+GOOD == {"safe", "safe_pieces", "safe_stale"}
+ExpectAtomic == proto \in GOOD \/ (proto = "nofsync" /\ ~power) \/ proto = "trace"
+AtomicWhereExpected == ExpectAtomic => Atomic
 \* the save does something: once the program has run to its end the file is the new version
-Completes == (~crashed /\ pc > Len(prog)) => AtPath = New(n)
-\* reachability witnesses (must be violated)
-W_CrashMidWrite == ~(crashed /\ \E i \in DOMAIN ino : IsNew(ino[i].vis) /\ ino[i].vis[2] > 0 /\ ino[i].vis[2] < n)
-W_CrashAfterRename == ~(crashed /\ AtPath = New(n) /\ pc <= Len(prog))
-W_Leak == ~(crashed /\ \E h \in Hs : hnd[h].open /\ hnd[h].pend = 0 /\ hnd[h].ino # 0 /\ ino[hnd[h].ino].vis = New(2))
+Completes == (ExpectAtomic /\ ~crashed /\ pc > Len(prog)) => AtPath = New(n)
+
+\* negative controls and reachability witnesses of ONE exhaustive run (one worker): a state CONSTRAINT that is always true
+\* and notes in a register which non-atomic protocol was caught / which witness state was seen; the POSTCONDITION prints them
+AllProtos == <<"safe", "safe_pieces", "safe_stale", "nofsync", "inplace", "overwrite", "remove_rename", "rename_early", "win_fallback", "backup_copy">>
+Idx(p) == CHOOSE i \in DOMAIN AllProtos : AllProtos[i] = p
+W_CrashMidWrite == crashed /\ \E i \in DOMAIN ino : IsNew(ino[i].vis) /\ ino[i].vis[2] > 0 /\ ino[i].vis[2] < n
+W_CrashAfterRename == crashed /\ AtPath = New(n) /\ pc <= Len(prog)
+W_Leak == crashed /\ \E h \in Hs : hnd[h].open /\ hnd[h].pend = 0 /\ hnd[h].ino # 0 /\ ino[hnd[h].ino].vis = New(2)
+W_Lost == crashed /\ power /\ proto = "nofsync" /\ AtPath = New(0)
+Witnesses == <<"W_CrashMidWrite", "W_CrashAfterRename", "W_Leak", "W_Lost">>
+Mark == /\ (~Atomic /\ proto # "trace") => TLCSet(Idx(proto) + (IF power THEN 100 ELSE 0), TRUE)
+        /\ W_CrashMidWrite => TLCSet(201, TRUE)
+        /\ W_CrashAfterRename => TLCSet(202, TRUE)
+        /\ W_Leak => TLCSet(203, TRUE)
+        /\ W_Lost => TLCSet(204, TRUE)
+FsReport == /\ TLCGet("stats").diameter >= 0
+            /\ \A i \in DOMAIN AllProtos, w \in BOOLEAN :
+                 TLCGetOrDefault(i + (IF w THEN 100 ELSE 0), FALSE) => PrintT(<<"NONATOMIC", AllProtos[i], w>>)
+            /\ \A j \in DOMAIN Witnesses : TLCGetOrDefault(200 + j, FALSE) => PrintT(<<"WITNESS", Witnesses[j]>>)
 =============================================================================
